@@ -67,7 +67,7 @@ def run_crate(repo, crate, units, jobs, log_dir):
             res[u['harness']] = {'state': 'undecided', 'why': why + ': ' + '; '.join(m[:3]), 'checks': 0, 'failed': [], 'time_s': 0}
         return res, {'cmd': ' '.join(cmd), 'wall_s': wall, 'tools': {}, 'peak_rss_kb': watch.peak}
     by_id = {r['harness_id']: r for r in data.get('verification_results', {}).get('results', [])}
-    stats = {c['harness_id']: c.get('cbmc_stats', {}) for c in data.get('cbmc', [])}
+    stats = {c['harness_id']: (c.get('cbmc_stats') or {}) for c in (data.get('cbmc') or [])}
     for u in units:
         h = u['harness']; r = by_id.get(h)
         if r is None:
